@@ -661,7 +661,7 @@ Proof.
             |apply (X1 RdOut); cbn [rt_buf]; rewrite ?Hb; first [right; exact Hy'|exact Hy']]. }
   split; [destruct d; exact X2|]. split; [destruct d; exact X3|].
   split.
-  { intros H. destruct d; cbn [rt_set_buf rt_buf] in *; xproj; destruct (X4 H) as [H1 H2]; congruence. }
+  { intros H. destruct d; cbn [rt_set_buf rt_buf] in *; xproj; pose proof (X4 H) as H12; destruct H12; congruence. }
   split.
   { destruct d; cbn [rt_set_buf rt_buf] in *; xproj; destruct (x_pc x); try exact I; try exact Hin;
       try (destruct X5 as [H1 H2]; congruence); try congruence. }
